@@ -215,8 +215,22 @@ impl LocalDestination {
         if self.is_file {
             self.path.clone()
         } else {
-            self.path.join(item)
+            self.join_confined(item)
         }
+    }
+
+    /// Join `item` to the base path using only its normal components.
+    ///
+    /// Node names come from the repository; names like `..` or absolute paths must never lead
+    /// to a path outside of the destination.
+    fn join_confined(&self, item: impl AsRef<Path>) -> PathBuf {
+        let mut path = self.path.clone();
+        path.extend(
+            item.as_ref()
+                .components()
+                .filter(|comp| matches!(comp, std::path::Component::Normal(_))),
+        );
+        path
     }
 
     /// Remove the given directory (relative to the base path)
@@ -272,7 +286,7 @@ impl LocalDestination {
     ///
     /// This will create the directory structure recursively.
     pub(crate) fn create_dir(&self, item: impl AsRef<Path>) -> LocalDestinationResult<()> {
-        let dirname = self.path.join(item);
+        let dirname = self.join_confined(item);
         fs::create_dir_all(dirname).map_err(LocalDestinationErrorKind::DirectoryCreationFailed)?;
         Ok(())
     }
